@@ -103,11 +103,11 @@ fn c08_all(ctx: &mut Ctx) {
     use num_traits::float::FloatCore;
     let trunc_v = v.trunc();
     let cases: [(&str, Big, Box<dyn Fn() -> TwoFloat>, Box<dyn Fn() -> TwoFloat>, Box<dyn Fn() -> TwoFloat>); 5] = [
-        ("floor", v.floor(), Box::new(move || t.floor()), Box::new(move || <TwoFloat as FloatCore>::floor(t)), Box::new(move || <TwoFloat as num_traits::Float>::floor(t))),
-        ("ceil", v.ceil(), Box::new(move || t.ceil()), Box::new(move || <TwoFloat as FloatCore>::ceil(t)), Box::new(move || <TwoFloat as num_traits::Float>::ceil(t))),
-        ("trunc", trunc_v.clone(), Box::new(move || t.trunc()), Box::new(move || <TwoFloat as FloatCore>::trunc(t)), Box::new(move || <TwoFloat as num_traits::Float>::trunc(t))),
-        ("round", v.round_half_away(), Box::new(move || t.round()), Box::new(move || <TwoFloat as FloatCore>::round(t)), Box::new(move || <TwoFloat as num_traits::Float>::round(t))),
-        ("fract", v.sub(&trunc_v), Box::new(move || t.fract()), Box::new(move || <TwoFloat as FloatCore>::fract(t)), Box::new(move || <TwoFloat as num_traits::Float>::fract(t))),
+        ("floor", v.floor(), Box::new(move || crate::inh::floor(t)), Box::new(move || <TwoFloat as FloatCore>::floor(t)), Box::new(move || <TwoFloat as num_traits::Float>::floor(t))),
+        ("ceil", v.ceil(), Box::new(move || crate::inh::ceil(t)), Box::new(move || <TwoFloat as FloatCore>::ceil(t)), Box::new(move || <TwoFloat as num_traits::Float>::ceil(t))),
+        ("trunc", trunc_v.clone(), Box::new(move || crate::inh::trunc(t)), Box::new(move || <TwoFloat as FloatCore>::trunc(t)), Box::new(move || <TwoFloat as num_traits::Float>::trunc(t))),
+        ("round", v.round_half_away(), Box::new(move || crate::inh::round(t)), Box::new(move || <TwoFloat as FloatCore>::round(t)), Box::new(move || <TwoFloat as num_traits::Float>::round(t))),
+        ("fract", v.sub(&trunc_v), Box::new(move || crate::inh::fract(t)), Box::new(move || <TwoFloat as FloatCore>::fract(t)), Box::new(move || <TwoFloat as num_traits::Float>::fract(t))),
     ];
     let mut tr: Option<Dd> = None;
     let mut fr: Option<Dd> = None;
